@@ -3,9 +3,11 @@
 //	c06 run <repo> <outdir> <seed> <tier>     explore: corpus, truncations, structure-aware mutations
 //	c06 single <file> <timeout-seconds>       parse one input; on timeout dump the goroutines (exit 3)
 //
-// Every input is parsed by the real parser (the body of parser.ParseString: NewTemplateFileParser("main")
-// .Parse on a parse.Input the harness keeps a pointer to, so that a watchdog can observe the cursor)
-// in a worker with recover and a watchdog.  Panics are reported as violations with the recovered
+// Every input is parsed by the exported entry point parser.ParseString on the CALLER's string; every
+// position the parser reports (errors, ranges, loop-top cursors) is judged against that string, in
+// a worker with recover and a watchdog.  Input families: corpus, byte-wise truncations, seeded
+// token mutations, "ends" (inputs cut exactly at the end of a construct, with no final newline / a
+// final newline / a final CR / CRLF), "nest" (one construct kind nested d levels deep).  Panics are reported as violations with the recovered
 // stack.  A watchdog timeout is only reported as a suspect; checks/C06.py confirms it with `single`.
 // With the verif hook of hooks/C06-parser-loops.diff applied to the repository (build tag c06hook)
 // every loop top of the parser is observed: a loop top that does not advance the cursor aborts the
@@ -42,18 +44,6 @@ import (
 	"verifharness/vhlib"
 )
 
-// parseString is parser.ParseString with the parse.Input exposed.
-func parseString(pi *parse.Input) (parser.TemplateFile, error) {
-	tf, ok, err := parser.NewTemplateFileParser("main").Parse(pi)
-	if err != nil {
-		return tf, err
-	}
-	if !ok {
-		err = parser.ErrTemplateNotFound
-	}
-	return tf, err
-}
-
 type input struct {
 	kind   string // corpus | trunc | mut:<op>
 	origin string
@@ -69,7 +59,7 @@ type outcome struct {
 	timeout  bool
 	noprog   *noProgress
 	events   []topEvent
-	cursor   int
+	oob      *topEvent
 }
 
 // ---------------------------------------------------------------------------------------------
@@ -407,16 +397,26 @@ func walkRanges(v reflect.Value, path string, src string, out *[]rangeRec) {
 	}
 }
 
-// rangeViolation names the clause of the property a record breaks ("" = none).
+// rangeViolation names the clause of the property a record breaks ("" = none).  lt is the line
+// table of the CALLER's input.
 func rangeViolation(lt *lineTable, r rangeRec) string {
-	if !lt.posOK(r.A[0], r.A[1], r.A[2]) {
-		return "PositionConsistent"
+	check := func(p []int) string {
+		if p[0] < 0 || p[0] > lt.n {
+			return "PositionInInput"
+		}
+		if !lt.posOK(p[0], p[1], p[2]) {
+			return "PositionConsistent"
+		}
+		return ""
+	}
+	if v := check(r.A); v != "" {
+		return v
 	}
 	if r.T == "err" {
 		return ""
 	}
-	if !lt.posOK(r.B[0], r.B[1], r.B[2]) {
-		return "PositionConsistent"
+	if v := check(r.B); v != "" {
+		return v
 	}
 	if r.A[0] > r.B[0] {
 		return "RangeOrdered"
@@ -464,11 +464,10 @@ func innermostParserFunc(stack string) string {
 }
 
 func runOne(in input, timeout time.Duration, record bool) outcome {
-	pi := parse.NewInput(in.data)
-	rec := attach(pi, len(in.data), record)
 	ch := make(chan outcome, 1)
 	go func() {
 		o := outcome{in: in}
+		rec := attach(len(in.data), record)
 		defer func() {
 			if p := recover(); p != nil {
 				if np, ok := p.(*noProgress); ok {
@@ -479,18 +478,20 @@ func runOne(in input, timeout time.Duration, record bool) outcome {
 					o.stack = string(buf[:runtime.Stack(buf, false)])
 				}
 			}
+			o.events, o.oob = detach(rec)
 			ch <- o
 		}()
-		o.tf, o.err = parseString(pi)
+		// the exported entry point, on the caller's input: every position it reports is judged
+		// against THIS string
+		o.tf, o.err = parser.ParseString(in.data)
 	}()
 	var o outcome
 	select {
 	case o = <-ch:
 	case <-time.After(timeout):
-		o = outcome{in: in, timeout: true, cursor: pi.Index()}
+		o = outcome{in: in, timeout: true}
 	}
-	o.events = detach(pi, rec)
-	if o.noprog != nil && !record {
+	if (o.noprog != nil || o.oob != nil) && !record {
 		return runOne(in, timeout, true) // deterministic: run again with the events recorded for TLC
 	}
 	return o
@@ -561,7 +562,9 @@ func main() {
 	errSampleEvery := 9     // every n-th error position goes to TLC as well
 	cursorSampleEvery := 12 // every n-th input has its loop-top events validated by TLC (hook builds)
 	timeout := 5 * time.Second
+	nestDepth := 7 // 2^7 re-parses of the innermost body cost about a millisecond
 	if thorough {
+		nestDepth = 10
 		truncAllBelow, truncSample, mutPerFile = 1<<30, 0, 6000
 		rangeSampleEvery, errSampleEvery, cursorSampleEvery = 40, 60, 60
 		timeout = 10 * time.Second
@@ -584,6 +587,9 @@ func main() {
 		suspects                                             []map[string]any
 		fileID                                               int64
 		stop                                                 atomic.Bool
+		maxReparse                                           = map[string]int{}
+		nestWork                                             []map[string]any
+		reparseOver, oobs                                    int
 	)
 
 	handle := func(o outcome, n int) {
@@ -591,25 +597,54 @@ func main() {
 		lt := newLineTable(in.data)
 		mu.Lock()
 		evaluations++
-		byKind[strings.SplitN(in.kind, ":", 2)[0]]++
+		byKind[famOf(in.kind)]++
 		seen[hash(in.data)] = struct{}{}
 		mu.Unlock()
 
 		// loop-top events (hook builds)
+		special := in.kind == "corpus" || strings.HasPrefix(in.kind, "nest")
 		if len(o.events) > 0 {
 			tops := map[uint64]int{}
+			type key struct {
+				loop  string
+				start int
+			}
+			entered := map[key]int{}
+			worst, worstLoop := 0, ""
+			for _, e := range o.events {
+				if tops[e.Frame] == 0 {
+					k := key{e.Loop, e.Index}
+					entered[k]++
+					if entered[k] > worst {
+						worst, worstLoop = entered[k], e.Loop
+					}
+				}
+				tops[e.Frame]++
+			}
 			mu.Lock()
 			for _, e := range o.events {
 				loopsSeen[e.Loop]++
-				tops[e.Frame]++
-				if tops[e.Frame] > maxTops {
-					maxTops = tops[e.Frame]
+			}
+			for _, c := range tops {
+				if c > maxTops {
+					maxTops = c
 				}
 			}
+			if worst > maxReparse[famOf(in.kind)] {
+				maxReparse[famOf(in.kind)] = worst
+			}
+			if strings.HasPrefix(in.kind, "nest") {
+				nestWork = append(nestWork, map[string]any{"kind": in.kind, "bytes": len(in.data), "loop_tops": len(o.events), "max_entries_same_loop_same_index": worst, "loop": worstLoop})
+			}
+			over := worst > reparseLimit
+			if over {
+				reparseOver++
+			}
 			mu.Unlock()
-			if o.noprog != nil || in.kind == "corpus" || n%cursorSampleEvery == 0 {
+			if o.noprog != nil || o.oob != nil || over || special || n%cursorSampleEvery == 0 {
 				id := atomic.AddInt64(&fileID, 1)
-				recs := []any{map[string]any{"k": "in", "id": id, "n": len(in.data), "flag": b2i(o.noprog != nil)}}
+				recs := []any{map[string]any{"k": "in", "id": id, "n": len(in.data), "flag": b2i(o.noprog != nil), "oob": b2i(o.oob != nil), "rp": b2i(over),
+					"kind": in.kind, "origin": in.origin, "src": srcFor(in, o.noprog != nil || o.oob != nil || over)}}
 				for _, e := range o.events {
 					recs = append(recs, map[string]any{"k": "top", "id": id, "f": e.Frame, "l": e.Loop, "i": e.Index})
 				}
@@ -619,14 +654,20 @@ func main() {
 				cursorEvents += len(o.events)
 				mu.Unlock()
 			}
-		}
-
-		if in.kind == "corpus" && o.noprog == nil && !o.timeout && o.panicked == nil {
-			// the exported entry point itself: same verdict as the body the harness runs
-			if _, err2 := parser.ParseString(in.data); (err2 == nil) != (o.err == nil) {
-				vhlib.Fatal("parser.ParseString and TemplateFileParser.Parse disagree on %s: %v vs %v", in.origin, err2, o.err)
+			if o.oob != nil {
+				mu.Lock()
+				oobs++
+				mu.Unlock()
+				vhlib.Drift("parser cursor beyond the caller's input", map[string]any{"loop": o.oob.Loop, "index": o.oob.Index, "len": len(in.data), "kind": in.kind, "origin": in.origin})
+			}
+			if over {
+				vhlib.Fail("ReparseBound:"+worstLoop, fmt.Sprintf("one parse starts loop %s %d times at the same input index (limit %d; the corpus needs at most 4): the body is re-parsed once per enclosing level, work grows exponentially with nesting depth (%s, %d bytes, %d loop tops)",
+					worstLoop, worst, reparseLimit, in.kind, len(in.data), len(o.events)),
+					map[string]any{"input": quoteInput(in.data), "kind": in.kind, "origin": in.origin, "entries_same_loop_same_index": worst, "loop_tops": len(o.events),
+						"reproduce": "parser.ParseString(input) with the verif hook counting loop tops; each further level doubles the count"})
 			}
 		}
+
 		switch {
 		case o.noprog != nil:
 			mu.Lock()
@@ -644,7 +685,7 @@ func main() {
 			mu.Lock()
 			timeouts++
 			if len(suspects) < 12 {
-				suspects = append(suspects, map[string]any{"input": in.data, "kind": in.kind, "origin": in.origin, "cursor": o.cursor})
+				suspects = append(suspects, map[string]any{"input": in.data, "kind": in.kind, "origin": in.origin})
 			}
 			if timeouts >= 6 {
 				stop.Store(true) // every hung parse keeps a core busy: stop exploring, report what we have
@@ -757,6 +798,12 @@ func main() {
 	go func() {
 		defer close(work)
 		r := rand.New(rand.NewSource(seed))
+		for _, in := range endsOfConstructs(corpus, thorough) {
+			work <- in
+		}
+		for _, in := range nestings(nestDepth) {
+			work <- in
+		}
 		for _, c := range corpus {
 			if stop.Load() {
 				return
@@ -803,7 +850,7 @@ func main() {
 					continue
 				}
 				n := int(atomic.AddInt64(&counter, 1))
-				record := hookPresent && (in.kind == "corpus" || n%cursorSampleEvery == 0)
+				record := hookPresent && (in.kind == "corpus" || strings.HasPrefix(in.kind, "nest") || n%cursorSampleEvery == 0)
 				handle(runOne(in, timeout, record), n)
 			}
 		}()
@@ -817,7 +864,7 @@ func main() {
 	for i, s := range suspects {
 		p := filepath.Join(outdir, fmt.Sprintf("suspect-%d.templ", i))
 		os.WriteFile(p, []byte(s["input"].(string)), 0o644)
-		suspectFiles = append(suspectFiles, map[string]any{"file": p, "kind": s["kind"], "origin": s["origin"], "cursor": s["cursor"], "len": len(s["input"].(string))})
+		suspectFiles = append(suspectFiles, map[string]any{"file": p, "kind": s["kind"], "origin": s["origin"], "len": len(s["input"].(string))})
 	}
 	for i, c := range corpus {
 		if i%61 == 0 {
@@ -832,8 +879,11 @@ func main() {
 		"range_flags": rangeFlags, "err_flags": errFlags, "range_files_logged": rangeFiles, "range_records_logged": rangeRecs, "err_records_logged": errRecs,
 		"range_lines": ranges.lines, "cursor_lines": cursor.lines, "cursor_inputs": cursorInputs, "cursor_events": cursorEvents,
 		"max_tops_per_frame": maxTops, "loops_seen": loopsSeen, "range_kinds": holders,
+		"max_entries_same_loop_same_index": maxReparse, "reparse_limit": reparseLimit, "reparse_over": reparseOver, "cursor_beyond_input": oobs, "nest_work": nestWork,
 	})
 }
+
+func famOf(kind string) string { return strings.SplitN(kind, ":", 2)[0] }
 
 func b2i(b bool) int {
 	if b {
@@ -857,7 +907,6 @@ func single(path, secs string) {
 		vhlib.Fatal("%v", err)
 	}
 	t, _ := strconv.Atoi(secs)
-	pi := parse.NewInput(string(b))
 	done := make(chan string, 1)
 	start := time.Now()
 	go func() {
@@ -866,44 +915,23 @@ func single(path, secs string) {
 				done <- fmt.Sprintf("panic: %v", p)
 			}
 		}()
-		_, err := parseString(pi)
+		_, err := parser.ParseString(string(b))
 		done <- fmt.Sprintf("returned err=%v", err)
 	}()
-	var samples []int
-	tick := time.NewTicker(50 * time.Millisecond)
-	deadline := time.After(time.Duration(t) * time.Second)
-	for {
-		select {
-		case r := <-done:
-			fmt.Printf("{\"kind\":\"single\",\"result\":%q,\"seconds\":%.3f}\n", r, time.Since(start).Seconds())
-			return
-		case <-tick.C:
-			samples = append(samples, pi.Index())
-		case <-deadline:
-			// cursor samples (racy reads of an int, good enough as evidence) and three dumps
-			lo, hi := 1<<62, -1
-			tail := samples
-			if len(tail) > 200 {
-				tail = tail[len(tail)-200:]
-			}
-			for _, s := range tail {
-				if s < lo {
-					lo = s
-				}
-				if s > hi {
-					hi = s
-				}
-			}
-			var dumps []string
-			for i := 0; i < 3; i++ {
-				buf := make([]byte, 1<<20)
-				dumps = append(dumps, string(buf[:runtime.Stack(buf, true)]))
-				time.Sleep(150 * time.Millisecond)
-			}
-			out, _ := json.Marshal(map[string]any{"kind": "single", "result": "timeout", "seconds": time.Since(start).Seconds(),
-				"input_len": len(b), "cursor_min_last_10s": lo, "cursor_max_last_10s": hi, "dumps": dumps})
-			fmt.Println(string(out))
-			os.Exit(3)
+	select {
+	case r := <-done:
+		fmt.Printf("{\"kind\":\"single\",\"result\":%q,\"seconds\":%.3f}\n", r, time.Since(start).Seconds())
+		return
+	case <-time.After(time.Duration(t) * time.Second):
+		var dumps []string
+		for i := 0; i < 3; i++ {
+			buf := make([]byte, 1<<20)
+			dumps = append(dumps, string(buf[:runtime.Stack(buf, true)]))
+			time.Sleep(150 * time.Millisecond)
 		}
+		out, _ := json.Marshal(map[string]any{"kind": "single", "result": "timeout", "seconds": time.Since(start).Seconds(),
+			"input_len": len(b), "dumps": dumps})
+		fmt.Println(string(out))
+		os.Exit(3)
 	}
 }
